@@ -114,6 +114,24 @@ def staged(ctx):
     tb_scores = C.def_borda(present, cands) if tb == "borda" else (fpv if tb == "first_place" else None)
     for S, res in st1.tiebreaks.items():
         check_record(ctx, S, res, fpv, kept, tb, tb_scores, [])
+    # every random draw among candidates must be covered by a tiebreak recorded in some round
+    all_ties = [set(S) for st in e.election_states for S in st.tiebreaks]
+    for call in ctx.rlog:
+        pop = call.get("population", [])
+        if call.get("random") and pop and all(isinstance(x, str) for x in pop):
+            if not any(set(pop) <= S for S in all_ties):
+                ctx.fail("c10:unrecorded-random-draw", f"a random draw among {sorted(pop)} is not covered by any recorded tiebreak")
+    if rule == "TopTwo" and len(e.election_states) == 3:
+        # the runoff round: a recorded tie must be genuine on the reduced profile's first-place tallies
+        from .c13 import spec_reduced_profile
+        _, p2 = spec_reduced_profile(present, set(kept), cands)
+        f2 = C.def_fpv(p2, kept)
+        st2 = e.election_states[2]
+        for S, res in st2.tiebreaks.items():
+            check_record(ctx, S, res, f2, C.flat(st2.elected), tb, None, [])
+        if not st2.tiebreaks and tb is not None and len(kept) == 2:
+            ctx.require(ne(f2[kept[0]], f2[kept[1]]), "c10:runoff-tie-unrecorded",
+                        "the two finalists are tied in the runoff and a tiebreak was requested, but round 2 records none")
     m1 = 2 if rule == "TopTwo" else opts["m_1"]
     if not st1.tiebreaks and tb is not None:
         ctx.require(NOT(C.straddle_tie(fpv, cands, m1)) if m1 < len(cands) else True, "c10:stage-one-tie-unrecorded",
